@@ -341,7 +341,7 @@ pub trait Datamodel {
                             Ok(value) => {
                                 values.push(ParamPair::new_moved(
                                     param.name.clone(),
-                                    value.lock().unwrap().clone(),
+                                    value.lock().unwrap().deep_clone(),
                                 ));
                             }
                         }
@@ -358,7 +358,7 @@ pub trait Datamodel {
                             Ok(value) => {
                                 values.push(ParamPair::new_moved(
                                     param.name.clone(),
-                                    value.lock().unwrap().clone(),
+                                    value.lock().unwrap().deep_clone(),
                                 ));
                             }
                         }
@@ -1080,6 +1080,22 @@ impl Data {
             Data::Error(_) => true,
             Data::Source(s) => s.is_empty(),
             Data::None() => true,
+        }
+    }
+
+    /// A copy that shares no data cell with `self`.\
+    /// `Data::clone` is shallow for arrays and maps: the elements of the clone are the same
+    /// `Arc`s. Values that leave the datamodel (event payloads) must be copied with this.
+    pub fn deep_clone(&self) -> Data {
+        fn copy_cell(cell: &DataArc) -> DataArc {
+            let mut copy = create_data_arc(cell.lock().unwrap().deep_clone());
+            copy.flags = cell.flags;
+            copy
+        }
+        match self {
+            Data::Array(a) => Data::Array(a.iter().map(copy_cell).collect()),
+            Data::Map(m) => Data::Map(m.iter().map(|(k, e)| (k.clone(), copy_cell(e))).collect()),
+            other => other.clone(),
         }
     }
 }
